@@ -409,7 +409,7 @@ func goExprErr(e Expr, vars map[string]string, ct *Contract, res *types.Tuple, r
 	rewrite = func(e Expr) Expr {
 		switch x := e.(type) {
 		case *EBin:
-			if (x.Op == "==" || x.Op == "!=") {
+			if x.Op == "==" || x.Op == "!=" {
 				if n, ok := x.L.(*EName); ok {
 					if rn, isErr := errNames[n.Name]; isErr {
 						if r, ok := x.R.(*EName); ok && r.Name == "nil" {
